@@ -1,9 +1,9 @@
 (* C04 — condition-variable wake-ups are neither lost nor swallowed by a timeout.
    Theorems about Model/CvModel.v: the executable model of internal/cv.c (nsync_cv_wait_with_deadline_generic,
    nsync_cv_signal, nsync_cv_broadcast, wake_waiters, cv_enqueue / cv_dequeue / cv_ready_time as used by nsync_wait_n)
-   with the repair of finding F3, one step per atomic site, values from Gen/Sites.v; tied to the real code by
+   with the repairs of findings F3 and F15, one step per atomic site, values from Gen/Sites.v; tied to the real code by
    lock-step replay of harness/scen/cv_mix.c traces (replay/cv_replay.ml).  Statements only; proofs in
-   Proof/CvProof.v .. CvProof6.v.
+   Proof/CvProof.v .. CvProof6.v (F15: layers L and F of CvProof6.v).
 
    Every theorem is about [run (init progs clock0 exp) sched] for ARBITRARY thread programs [progs] (any number of
    threads; Wait with any deadline / cancellable / generic flag, Signal, Broadcast, WaitN, Lock, Unlock in any order),
@@ -19,7 +19,11 @@
    abstract mutex's unlocker still owes thread u (it cleared the waiting flag of u's transferred waiter; in mu.c the V
    follows that store immediately); [wlog w] = the completed signal / broadcast calls with the ghost history of each:
    k_q (the queue when the call acquired the cv spinlock), k_rdrs (the native readers on it), k_taken (what the call
-   unlinked), k_xfer (handed to the mutex queue), k_woken (waiting cleared), k_posts (semaphores posted). *)
+   unlinked), k_xfer (handed to the mutex queue), k_woken (waiting cleared), k_posts (semaphores posted);
+   [muq w] = the TRANSFERRED records on the queue of the abstract mutex (the plain lockers of the real mutex are not
+   modelled: whether one is queued is reported by the environment when wake_waiters tests nsync_dll_is_empty_
+   (pmu->waiters), choice [CMuEmpty] = none; [k_envq] records the report, [k_clr] is clear_on_release);
+   [mspin w] = the thread inside wake_waiters that owns the mutex spinlock. *)
 From NsyncBase Require Import CSem.
 From NsyncGen Require Import Consts Sites.
 From NsyncModel Require Import CvModel.
@@ -154,6 +158,40 @@ Section C04.
     (exists s, s <> t /\ lc w (n_r n) = PPriv s /\ In (n_r n) (priv (pcof w s))) \/
     (lc w (n_r n) = PNone /\ waiting (recs w (n_r n)) = 0 /\ (0 < sem w t \/ exists s k, pcof w s = VV k t)).
   Proof. exact (no_lost_wakeup_waitn_reachable progs clock0 exp sched). Qed.
+
+  (* ---- (f) the repair of F15: MU_WAITING at the CAS of wake_waiters that releases the mutex spinlock ----
+     wake_waiters sets MU_WAITING with the CAS that takes the spinlock, before it knows whether it will transfer anybody.
+     At the successful releasing CAS ([VCas2], the word read is still the word): *)
+  (* after the release the bit is set only if a waiter is queued: a transferred one, or a plain locker the environment
+     reported when wake_waiters tested the queue under the spinlock *)
+  Theorem C04_waiting_bit_has_a_waiter : forall t k old c, pcof w t = VCas2 k old -> muw w = old ->
+    let w' := fst (step w (Thr t) c) in
+    has (muw w') MU_WAITING = true -> muq w' <> [] \/ k_envq k = true.
+  Proof. exact (waiting_bit_has_a_waiter_reachable progs clock0 exp sched). Qed.
+  (* exactly: taken back when nobody is queued, left as it was read when somebody is (never cleared over a waiter) *)
+  Theorem C04_waiting_bit_exact : forall t k old c, pcof w t = VCas2 k old -> muw w = old ->
+    let w' := fst (step w (Thr t) c) in
+    (muq w = [] /\ k_envq k = false -> has (muw w') MU_WAITING = false) /\
+    (muq w <> [] \/ k_envq k = true -> has (muw w') MU_WAITING = has old MU_WAITING).
+  Proof. exact (waiting_bit_exact_reachable progs clock0 exp sched). Qed.
+  (* the release step itself: the thread owned the spinlock, what it clears (k_clr) was decided against the queue as it
+     still is, the queue is not touched, the new word is the expression of the C source (Gen/Sites.v) *)
+  Theorem C04_release_step : forall t k old c, pcof w t = VCas2 k old -> muw w = old ->
+    let w' := fst (step w (Thr t) c) in
+    mspin w = Some t /\ clr_ok k (muq w) /\ word_ok (muw w) /\
+    pcof w' t = enter_wake_loop k /\ mspin w' = None /\ muq w' = muq w /\ muw w' = wake_waiters_cas2_new old (k_set k) (k_clr k).
+  Proof. exact (release_step_reachable progs clock0 exp sched). Qed.
+  (* the mutex spinlock section of wake_waiters is exclusive: its owner is between the two CASes, the spinlock bit is set in
+     the word whatever the environment writes, and every thread between the two CASes is the owner *)
+  Theorem C04_mu_spin_section :
+    (forall t, mspin w = Some t -> has (muw w) MU_SPINLOCK = true /\ exists k, rel_pc (pcof w t) = Some k) /\
+    (forall t k, rel_pc (pcof w t) = Some k -> mspin w = Some t /\ clr_ok k (muq w)).
+  Proof. exact (mu_spin_section_reachable progs clock0 exp sched). Qed.
+  (* the lock field of the abstract mutex word counts the holders (bit 0: the writer, bits 8..: the readers; never both) *)
+  Theorem C04_abstract_mutex_lock_field :
+    0 <= muw w < 4294967296 /\ muw w mod 2 = sumf hW (thr w) /\ muw w / 256 = sumf hR (thr w) /\
+    (sumf hW (thr w) = 0 \/ sumf hR (thr w) = 0).
+  Proof. exact (lock_field_reachable progs clock0 exp sched). Qed.
 End C04.
 
 (* ---- (b) what a waker takes, at the CAS that acquires the cv spinlock (any world; one-step lemmas) ---- *)
@@ -194,6 +232,12 @@ Theorem C04_xfer_ghost : forall w t c k old, (t < length (thr w))%nat -> pcof w 
                    (forall r, In r moved -> cv_mu (recs w' r) = false /\ lc w' r = PMuq) /\
                    (forall r, In r (k_wake k) <-> In r moved \/ In r (k_wake k')).
 Proof. exact wake_ghost_xfer. Qed.
+(*   ... and clear_on_release is decided there, once, under the spinlock: MU_SPINLOCK, plus MU_WAITING iff the transferred
+     queue is empty after the transfer and the environment reports no plain locker (k_envq records the report) *)
+Theorem C04_release_decided : forall w t c k old, (t < length (thr w))%nat -> pcof w t = VCas1 k old -> muw w = old ->
+  let w' := fst (step_core w t c) in
+  exists k', pcof w' t = VLoad3 k' /\ k_envq k' = env_reports_queued c /\ k_clr k' = clear_on_release (muq w') (k_envq k').
+Proof. exact release_decided_step. Qed.
 (* - at the store waiting = 0: k_woken grows by that record; the next pc is the V on the semaphore of its owner *)
 Theorem C04_store_ghost : forall w t c k p rest, (t < length (thr w))%nat -> pcof w t = VStore k -> k_wake k = p :: rest ->
   let w' := fst (step_core w t c) in
@@ -353,6 +397,20 @@ Example C04_example_signal_readers :
 Proof.
   cbv zeta. split; [eexists; split; [vm_compute; reflexivity|]; vm_compute; auto 10|]. vm_compute. auto.
 Qed.
+(* the shape of F15: a native reader and an nsync_wait_n caller are queued, the broadcast is issued under a read lock: the
+   reader can acquire, the other record is not a mutex waiter, so wake_waiters takes the mutex spinlock (the word 256 becomes
+   262: MU_WAITING | MU_SPINLOCK set) and transfers nobody.  With no plain locker queued (CMuEmpty) the release takes
+   MU_WAITING back (256); if the environment reports one, the bit stays (260). *)
+Example C04_example_waiting_bit :
+  let progs := [[OLock R; OWait None false false; OUnlock]; [OWaitN None]; [OLock R; OBroadcast; OUnlock]] in
+  let w1 := run (init progs 0 None) (T 0 12 ++ T 1 6 ++ T 2 8) in
+  let wa := run w1 ((Thr 2%nat, CMuEmpty) :: T 2 2) in
+  let wb := run w1 ((Thr 2%nat, CNormal) :: T 2 2) in
+  (exists k, pcof w1 2%nat = VCas1 k 256) /\ muw w1 = 256 /\ muq w1 = [] /\
+  muw (run w1 [(Thr 2%nat, CMuEmpty)]) = 262 /\ muq (run w1 [(Thr 2%nat, CMuEmpty)]) = [] /\
+  muw wa = 256 /\ has (muw wa) MU_WAITING = false /\ muq wa = [] /\ mspin wa = None /\
+  muw wb = 260 /\ has (muw wb) MU_WAITING = true /\ muq wb = [] /\ mspin wb = None.
+Proof. cbv zeta. split; [eexists; vm_compute; reflexivity|]. vm_compute. repeat split; reflexivity. Qed.
 (* the state C04_no_lost_wakeup talks about: the sleeper's flag is clear, its semaphore is still 0, the waker is at the V *)
 Example C04_example_between_store_and_V :
   let progs := [[OLock W; OWait None false false; OUnlock]; [OSignal]] in
@@ -368,6 +426,9 @@ Print Assumptions C04_dead_record_is_nowhere. Print Assumptions C04_private_fate
 Print Assumptions C04_no_lost_wakeup. Print Assumptions C04_no_lost_wakeup_waitn. Print Assumptions C04_no_stuck_waitn.
 Print Assumptions C04_broadcast_covers.
 Print Assumptions C04_signal_covers. Print Assumptions C04_V_posts. Print Assumptions C04_return_logged.
+Print Assumptions C04_waiting_bit_has_a_waiter. Print Assumptions C04_waiting_bit_exact. Print Assumptions C04_release_step.
+Print Assumptions C04_mu_spin_section. Print Assumptions C04_abstract_mutex_lock_field. Print Assumptions C04_release_decided.
+Print Assumptions C04_example_waiting_bit.
 Print Assumptions C04_taken_ghost. Print Assumptions C04_xfer_ghost. Print Assumptions C04_store_ghost. Print Assumptions C04_post_ghost.
 Print Assumptions C04_waker_moves. Print Assumptions C04_VV_moves. Print Assumptions C04_no_stuck.
 Print Assumptions C04_no_stuck_uncoupled_refuted. Print Assumptions C04_no_stuck_uncoupled_is_false.
